@@ -6,7 +6,8 @@ from order import nocast, key
 
 TECHNIQUE = ("parser/writer sibling agreement per RR type bound through the two dispatch switches, offset-kind dataflow with an empty-buffer proof at "
              "every entry of the name-list owner, dominating-bound checks for every narrowing of a length onto the wire, failure-path restore "
-             "(must-pass-through), error-discipline typestate over the codec, who-may-append on the connection out buffer")
+             "(must-pass-through), error-discipline typestate over the codec, who-may-append on the connection out buffer"
+             ", guard-vocabulary check of every failure on the parse path against frozen protocol limits, def-use purity of numeric setter arguments, sibling agreement of per-key constraints between parser call flags and writer guards")
 LEVEL_TEXT = ("static: decides the structural preconditions of the round trip for all records and buffer states: (SYM) for each of the record types the "
               "parser and the writer handle the same keys with the same wire primitive in the same order, and both dispatch switches cover the enum; "
               "(OFF) name-compression offsets are message relative (the function owning the name list is entered only with an empty buffer); (PTR14) only "
